@@ -449,6 +449,8 @@ func (index *PatternIndex) searchPairs(ctx *Context, pairs []piPair) (StringSet,
 
 			morePairs := mapToPairs(ctx, mp)
 			morePairs = append(morePairs, rest...)
+			// A pattern like {"k":{}} ends right at the map node.
+			ids.AddAll(mi.Ids)
 			more, err := mi.searchPairs(ctx, morePairs)
 			if err != nil {
 				return nil, err
@@ -501,7 +503,14 @@ func (index *PatternIndex) searchPairs(ctx *Context, pairs []piPair) (StringSet,
 
 // SearchPatternsMap searchs the index for patterns that match the given fact (or event).
 func (index *PatternIndex) SearchPatternsMap(ctx *Context, fact map[string]interface{}) (StringSet, error) {
-	return index.searchPairs(ctx, mapToPairs(ctx, fact))
+	ids, err := index.searchPairs(ctx, mapToPairs(ctx, fact))
+	if err != nil {
+		return nil, err
+	}
+	// Patterns with no pairs at all (like {}) live at the root,
+	// and they match everything.
+	ids.AddAll(index.Ids)
+	return ids, nil
 }
 
 // AddPatternJSON adds the given pattern (as a map) to the index.
